@@ -27,6 +27,12 @@
 (* test are node 1 (single-value operations) and the ordered pairs (1,2),  *)
 (* (2,1), (1,1) - because the families below are closed under renumbering, *)
 (* fixing the tested nodes loses no shape.                                 *)
+(* Family "twin" (section TWINS) goes beyond 4 nodes in one direction: a   *)
+(* base shape over 2..3 nodes with ANY mix of kinds is built TWICE (two    *)
+(* distinct isomorphic values), and next to near-twins (one leaf changed,  *)
+(* one edge removed) and its own double unrolling; the pair (root, root of *)
+(* the second structure) is tested in both orders.  The other families     *)
+(* contain two disjoint isomorphic components only for one node kind.      *)
 (*                                                                         *)
 (* (b) The algorithms, as terminating state machines over such a heap.     *)
 (* Each machine M has MInit, MStep, MDone and a natural-number MEASURE     *)
@@ -55,8 +61,11 @@
 (*         kept as a named defective machine.  It is run with fuel and     *)
 (*         only labels each pair (tag field asis = ok | wrong | hang), so  *)
 (*         that a failure of equal? is attributed to a known finding only  *)
-(*         where this model says the known defect strikes.  On all 10918   *)
-(*         pairs of the quick space its prediction matched the engine.     *)
+(*         where this model says the known defect strikes.  It mirrors the *)
+(*         traversal ORDER too (the handler's queues are stacks), because  *)
+(*         whether a differing leaf is seen before a box cycle is entered  *)
+(*         depends on it.  On all 53 000 pairs of the thorough tier its    *)
+(*         prediction matched the engine.                                  *)
 (*   VARIANT (constant) switches Eq / the printer to three broken designs  *)
 (*         (MC_Shapes_cex_*.cfg); TLC must reject each (non-vacuity of     *)
 (*         ModelOK and of the measures).                                   *)
@@ -73,6 +82,8 @@
 (*   drop      forget x, then allocate 20000 boxes                         *)
 (*   equal     (equal? x y) both orders and (equal? x x) = bisimilarity    *)
 (*   hashfind  bisimilar x, y: (hash-contains? (hash x 1) y) = #true       *)
+(*   twins additionally: hashfind / hashmember (hashset) with expectation  *)
+(*             = bisimilarity, hashcode: codes of bisimilar twins agree    *)
 (* and renders the Scheme text of every step.  "Terminates" is observed by *)
 (* the replayer: a per-case time limit, and a dead process (native stack   *)
 (* overflow, abort) is attributed to the running case.                     *)
